@@ -412,7 +412,7 @@ func e2e(t *testing.T, tw *tracefmt.Writer, st *stats, rng *rand.Rand, n int) {
 		"s7.mc.ex", "S12.MC.EX", "s3.mc.ex.", ".s9.mc.ex", "s4.mc.ex\x00FML\x00", "s5.mc.ex\x00FML2\x00",
 		"s6.mc.ex///10.1.2.3:4711///1700000000", "s8.mc.ex.///1.1.1.1:1///5\x00FML\x00", "25.n.ex", "7.N.EX.",
 		"a7.ex", "lobby.ex", "x.lobby.ex", "LOBBY.EX\x00FML3\x00", "zz.top", "", ".", "t7.mc.ex", "s7.mc.exx",
-		"(s2).mc.ex", "É3.ex", "é4.ex\x00FML\x00", "s1\n.lobby.ex", "unknown.host///1.2.3.4:5///6", "play.ex",
+		"(s2).mc.ex", "É3.ex", "é4.ex\x00FML\x00", "L1\n.lobby.ex", "unknown.host///1.2.3.4:5///6", "play.ex",
 	}
 	for i := 0; i < n; i++ {
 		nr := 1 + rng.Intn(3)
